@@ -526,7 +526,7 @@ def run(tier, seed):
     return cov, violations
 
 OPEN_ITEMS = [
-    "The premise is now derived from typing, UNBOUNDED (notes/UNIFY.md): C13_equal_correct_typed / C13_allclose_correct_typed / C13_compare_correct_typed need no executable premise -- for every pair of well-formed operands typed alike in one context over good index types (typed_pair; physical axes may be shared, the freshening path is covered), whenever the model answers Ok b, b is the truth about the two dense tensors; C13_overlap_typed is the bridge (the stride-built views enumerate the coincidences, each once), from C06_unify_complete and a theory of well-typed acyclic substitutions (Proofs/Axis_typed.v, Axis_rank.v, Axis_stride_typed.v). Still open: C13_model_total_typed_partial / C13_compare_pre_typed_partial (the model does not fail, hence compare_pre_b = true) carry the side condition `tyfuel <= unify_fuel`, i.e. that the fuel formula of the model of unify is enough for all typed patterns (same open item as C06); stride / fv fuel and the debug check of project() are proved unconditionally. The bounded theorems (C13_overlap_exact_upto12, _2d_upto6, _small_shapes) and the in-check evaluation of compare_pre_b (verdict 30) are kept as cross-checks",
+    "The premise is now derived from typing, UNBOUNDED (notes/UNIFY.md): C13_equal_correct_typed / C13_allclose_correct_typed / C13_compare_correct_typed need no executable premise -- for every pair of well-formed operands typed alike in one context over good index types (typed_pair; physical axes may be shared, the freshening path is covered), whenever the model answers Ok b, b is the truth about the two dense tensors; C13_overlap_typed is the bridge (the stride-built views enumerate the coincidences, each once), from C06_unify_complete and a theory of well-typed acyclic substitutions (Proofs/Axis_typed.v, Axis_rank.v, Axis_stride_typed.v). CLOSED (notes/UNIFY.md section 6): the model always answers on typed pairs -- C13_equal_total_typed / C13_allclose_total_typed / C13_compare_total_typed are premise-free and total (exists b, model = Ok b, and b is the truth), C13_model_total_typed / C13_compare_pre_typed (the model of overlap does not fail, hence compare_pre_b = true) have lost the side condition `tyfuel <= unify_fuel`: the fuel formula of the model of unify was refuted (C06_unify_fuel_old_refuted, a finding about the model only) and replaced by one proved sufficient for all typed patterns (C06_unify_complete_model_fuel); stride / fv fuel and the debug check of project() were already unconditional. The bounded theorems (C13_overlap_exact_upto12, _2d_upto6, _small_shapes) and the in-check evaluation of compare_pre_b (verdict 30) are kept as cross-checks",
     "float rounding of torch.isclose's threshold atol + rtol*|y| is not modelled (exact rationals); generated values keep a margin of more than 1e-9",
     "MultiTensor.shouldStop's debugging variant (disabled in /repo by `shouldStop = allclose`) is not modelled",
     "F23 (known finding, outside the typed domain): operands typed by different sum decompositions of one dimension; the model follows the unrepaired code",
@@ -571,6 +571,6 @@ def replay(path):
 MANIFEST = dict(
     level="proof",
     text="Coq theorems about a Gallina model of PatternedTensor.equal / allclose / equal_default / allclose_default and MultiTensor.allclose that follows the code statement by statement (size test, freshening, per-element verdicts against the other side's default, unification of the patterns, the two projected views, the count n = cells + overlap, the final conjunction): for well-formed operands typed alike over good index types (unbounded: the views built from the unifier enumerate exactly the coincidences of the two patterns, derived from unify soundness + completeness on typed patterns; also stated with a boolean premise that is discharged in the kernel on the bounded typed universes), the model answers True exactly when the two denoted dense tensors have the same shape and satisfy the comparison cell by cell (the counting argument n <= |t| + |u| iff no cell is unbacked on both sides is proved by inclusion-exclusion on the two supports); symmetry, reflexivity and representation insensitivity are corollaries; MultiTensor.allclose reads an absent block as zero. The model is tied to /repo by running both on all pairs of typed patterns over small shapes with steered value assignments; every implementation answer is judged by the extracted oracle 'pointwise comparison of the brute-force dense denotations' on exact rationals.",
-    note="Trusted: Coq kernel + vm_compute, extraction cross-checked against vm_compute, the Python harness (numbering of PhysicalAxis objects, value generation with exact dyadics), torch's dense kernels as reference semantics. The premise-free theorems C13_equal_correct_typed / C13_allclose_correct_typed hold for all typed pairs whenever the model answers; that the model always answers is proved under a side condition on the fuel formula of unify (open item shared with C06).",
+    note="Trusted: Coq kernel + vm_compute, extraction cross-checked against vm_compute, the Python harness (numbering of PhysicalAxis objects, value generation with exact dyadics), torch's dense kernels as reference semantics. The premise-free theorems C13_equal_total_typed / C13_allclose_total_typed hold for all typed pairs: the model answers (the fuel formula of the model of unify is proved sufficient, C06_unify_complete_model_fuel) and the answer is the truth about the two dense tensors.",
     technique="Coq proof (model + theorems) + model/implementation correspondence with a verified brute-force oracle + differential third voice (torch on densifications) + metamorphic instances (symmetry, clone/freshen/densify/re-pattern)",
     design_ref="DESIGN.md section 6, C13; Appendix A.6, A.7")
